@@ -174,6 +174,12 @@ pub fn scenario(g: &mut G, ctx: &RunCtx) -> RunReport {
             })),
         );
     }
+    // the same prepared request sent a second time: every hop of the second pass is judged like the first
+    // (what an earlier pass left behind in the request - Host, body position, proxy choice - must not show)
+    let sends = if g.chance(1, 4) { 2usize } else { 1 };
+    if sends == 2 {
+        g.probe("prepared-request-sent-twice-through-the-chain");
+    }
     let url0 = gr.nodes[0].url.clone();
     let no_proxy2: Vec<String> = no_proxy.iter().map(|s| s.to_string()).collect();
     let out = sim.run(|| {
@@ -187,9 +193,13 @@ pub fn scenario(g: &mut G, ctx: &RunCtx) -> RunReport {
             }
         }
         rb = rb.proxy_settings(pb.build()).add_root_certificate(ca_cert());
-        match plan.send(rb) {
-            Ok(r) => Ok((r.status().as_u16(), r.url().to_string())),
-            Err(e) => Err(err_kind(&e)),
+        if sends == 1 {
+            vec![match plan.send(rb) {
+                Ok(r) => Ok(r.status().as_u16()),
+                Err(e) => Err(err_kind(&e)),
+            }]
+        } else {
+            plan.send_prepared(rb, sends)
         }
     });
     let mut stats = Stats::default();
@@ -200,7 +210,8 @@ pub fn scenario(g: &mut G, ctx: &RunCtx) -> RunReport {
         Some(Err(m)) => violation(format!("panic:{}:{}", crate::props::c02::panic_site(m), plan.body_name()), m.clone()),
         Some(Ok(res)) => {
             let mut v = Verdict::Pass;
-            let n_expected = gr.nodes.len();
+            let n_nodes = gr.nodes.len();
+            let n_expected = n_nodes * sends;
             if out.history.conns.len() != n_expected {
                 v = violation(
                     format!("hop-count:{}", plan.body_name()),
@@ -209,7 +220,12 @@ pub fn scenario(g: &mut G, ctx: &RunCtx) -> RunReport {
             } else {
                 let mut first_body: Option<Vec<u8>> = None;
                 let mut prev_proxied: Option<bool> = None;
-                for (i, c) in out.history.conns.iter().enumerate() {
+                for (ci, c) in out.history.conns.iter().enumerate() {
+                    let (pass, i) = (ci / n_nodes, ci % n_nodes);
+                    if i == 0 {
+                        first_body = None;
+                        prev_proxied = None;
+                    }
                     let node = &gr.nodes[i];
                     let (host, port, _pq) = urlref::http_target(&node.url).unwrap();
                     let is_https = node.url.starts_with("https://");
@@ -237,7 +253,7 @@ pub fn scenario(g: &mut G, ctx: &RunCtx) -> RunReport {
                     }
                     let bytes = if is_https {
                         // the request travelled inside TLS: take what the TLS peer decrypted and parsed
-                        match seen_tls.lock().unwrap().requests.first() {
+                        match seen_tls.lock().unwrap().requests.get(pass) {
                             Some((_, Ok(r))) => reencode(r),
                             Some((_, Err(m))) => {
                                 v = violation(format!("hop-request-malformed:{}", plan.body_name()), format!("hop {} (https): {}", i, m));
@@ -308,8 +324,8 @@ pub fn scenario(g: &mut G, ctx: &RunCtx) -> RunReport {
                 }
             }
             if v == Verdict::Pass {
-                if let Err(e) = res {
-                    v = violation(format!("send-failed:{}:{}", e, plan.body_name()), format!("send failed with {} although every hop was answered", e));
+                if let Some(Err(e)) = res.iter().find(|r| r.is_err()) {
+                    v = violation(format!("send-failed:{}:{}", e, plan.body_name()), format!("send failed with {} although every hop was answered (results {:?})", e, res));
                 }
             }
             v
